@@ -1,12 +1,17 @@
 #!/bin/bash
-# runs every confirmed seed against the check of its own property (quick tier); writes seeded/RESULTS.tsv
+# usage: tools/seed_matrix.sh [seeded/Cxx-k ...]
+# runs confirmed seeds (default: all) against the check of their own property (tier $SEED_TIER, default quick); rewrites their rows in seeded/RESULTS.tsv
 cd /verif
-: > seeded/RESULTS.tsv
-for d in seeded/C??-?; do
+touch seeded/RESULTS.tsv
+DIRS="$@"; [ -z "$DIRS" ] && DIRS=$(ls -d seeded/C??-? | sort -V)
+for d in $DIRS; do
+  d=${d%/}
   ID=$(basename $d | cut -d- -f1)
   R=$(tools/seedrun.sh $d/patch.diff $ID 2>&1 | tail -1)
   n=$(echo "$R" | sed -n 's/.*violations=\([0-9]*\).*/\1/p')
   keys=$(echo "$R" | sed -n 's/.*keys=\(.*\)/\1/p' | sed -E 's/: [^[]*\[[0-9]+ cases\]//g' | tr -s ' ' | cut -c1-300)
+  grep -v "^$(basename $d)	" seeded/RESULTS.tsv > seeded/RESULTS.tmp; mv seeded/RESULTS.tmp seeded/RESULTS.tsv
   printf "%s\t%s\t%s\t%s\n" "$(basename $d)" "$ID" "${n:-does-not-apply}" "$keys" | tee -a seeded/RESULTS.tsv
 done
+sort -V -o seeded/RESULTS.tsv seeded/RESULTS.tsv
 git -C /repo status --short | head -3
